@@ -449,6 +449,13 @@ func FuzzyMatchV2(caseSensitive bool, normalize bool, forward bool, input *util.
 		return FuzzyMatchV1(caseSensitive, normalize, forward, input, pattern, withPos, slab)
 	}
 
+	// The score matrix is made of 16-bit integers, and a match can score up to
+	// scoreMatch + bonusBoundary + 2 per character. Without a slab to limit the
+	// input size, a very long pattern would overflow it.
+	if M > 1000 {
+		return FuzzyMatchV1(caseSensitive, normalize, forward, input, pattern, withPos, slab)
+	}
+
 	// Phase 1. Optimized search for ASCII string
 	minIdx, maxIdx := asciiFuzzyIndex(input, pattern, caseSensitive)
 	if minIdx < 0 {
